@@ -95,7 +95,12 @@ def run(kind, step, pubs, reqs, limit, loc, masked):
     out = fm.Output("out", fm.Info(time=T0, grid=grid, units=units, mask=mask))
     ad = make(kind, step)
     inp = fm.Input("in", fm.Info(time=T0, grid=grid, units=None, mask=fm.Mask.FLEX))
-    out >> ad >> inp
+    # every third history runs through a pass-through adapter in front of the time adapter (the time adapter then is the consumer the
+    # output has to know, and requests reach the output through another adapter)
+    if (len(pubs) * 7 + len(reqs) * 3 + int(bool(masked))) % 3 == 0:
+        out >> fm.adapters.Scale(1.0) >> ad >> inp
+    else:
+        out >> ad >> inp
     inp.ping()
     for slot in (out, ad):
         slot.memory_limit = limit
@@ -239,7 +244,7 @@ if __name__ == "__main__":
         import json
 
         print(json.dumps({"evaluations": runs * 4, "distinct_nontrivial": dist, "violations": [{"case": msg}] if ok else [],
-                          "rule": "random publication/request histories on Output >> time adapter >> Input, 9 adapter configurations, x {no limit, limit 0} x {plain, masked, masked without masked cells}; distinct = distinct (adapter, step, publications, requests)",
+                          "rule": "random publication/request histories on Output >> [Scale >>] time adapter >> Input, 9 adapter configurations, x {no limit, limit 0} x {plain, masked, masked without masked cells}; distinct = distinct (adapter, step, publications, requests)",
                           "bound": "<= 7 publications, <= 8 requests, gaps {1,2,3,5,7} h"}))
     else:
         verdict(ok, msg)
